@@ -50,6 +50,8 @@ def sort_of(q):
         return "I"
     if q in STRING_T:
         return "S"
+    if "iterator" in q:
+        return "P"
     return "I"      # enums and typedef'd integers; record types never reach sort_of through a load
 
 
@@ -63,6 +65,8 @@ def is_record_type(q, ctx=None):
         return False
     if ctx is not None and q in ctx.enum_types:
         return False
+    if "iterator" in q:
+        return False           # iterators are values (a position), not objects with fields
     if q.endswith("]"):
         return True
     return q.startswith(("std::", "cxx", "CVar", "CSelectedOutput", "class ", "struct ")) or (ctx is not None and q in ctx.record_types)
@@ -155,12 +159,25 @@ class Exec(object):
         if a is None:
             if key[0] == "f":
                 a = tm.sym("%s.%s:%s" % (st.hprefix, key[1], key[2]), ("A", "P", key[2]))
+            elif key[0] == "m2":
+                a = tm.sym("%s.%s:%s[%s]" % (st.hprefix, key[1], key[2], key[3]), ("A", "P", key[3], key[2]))
             else:
                 a = tm.sym("%s.mem:%s" % (st.hprefix, key[1]), ("A", "P", "I", key[1]))
             st.heap[key] = a
         return a
 
+    def _mapnode(self, lv, sort):
+        """(*it).second / it->second of a map iterator miter(map, key) designates the mapped value of key"""
+        if lv[0] == "field" and lv[1] == "second" and lv[2].op == "app" and lv[2].args[0] == "mnode":
+            it = lv[2].args[1]
+            if it.op == "app" and it.args[0] == "miter":
+                return ("m2", "#mval", sort, it.args[2].sort), it.args[1], it.args[2]
+        return None
+
     def load(self, st, lv, sort):
+        mn = self._mapnode(lv, sort)
+        if mn is not None:
+            return tm.select(self.heap_arr(st, mn[0]), mn[1], mn[2])
         k = lv[0]
         if k == "local":
             v = st.locals.get(lv[1])
@@ -277,6 +294,8 @@ class Exec(object):
         for key in st.heap:
             if key[0] == "f":
                 newh[key] = tm.sym("H%d.%s:%s" % (tag, key[1], key[2]), ("A", "P", key[2]))
+            elif key[0] == "m2":
+                newh[key] = tm.sym("H%d.%s:%s[%s]" % (tag, key[1], key[2], key[3]), ("A", "P", key[3], key[2]))
             else:
                 newh[key] = tm.sym("H%d.mem:%s" % (tag, key[1]), ("A", "P", "I", key[1]))
         st.heap = newh
@@ -385,9 +404,11 @@ class Exec(object):
         return [(st, tm.app("sizeof", (tm.strc(str(q)),), "I"))]
 
     def ev_CXXConstructExpr(self, n, st):
-        inner = n.get("inner", [])
+        inner = [c for c in n.get("inner", []) if c.get("kind") != "CXXDefaultArgExpr"]
         q = strip_type(self.qt(n))
         if len(inner) == 1:
+            if q in STRING_T:
+                return [(s, self.coerce(v, "S")) for s, v in self.ev(inner[0], st)]
             return self.ev(inner[0], st)
         if len(inner) == 0:
             if q in STRING_T:
@@ -396,6 +417,10 @@ class Exec(object):
         if self.ctx.handlers.get("ctor:" + q):
             return self.ctx.handlers["ctor:" + q](self, st, n)
         out = []
+        if q.startswith("std::pair<") and len(inner) == 2:
+            for s2, args in self.ev_args(inner, st):
+                out.append((s2, tm.app("pair", tuple(args), "P")))
+            return out
         for s2, args in self.ev_args(inner, st):
             obj = fresh("ctor_" + q.replace(" ", "_").replace("<", "_").replace(">", "_"), "P")
             s2.events.append(Event("ctor " + q, obj, args, tm.num(0, "I"), n))
@@ -511,6 +536,11 @@ class Exec(object):
         name = n.get("name")
         base = n["inner"][0]
         out = []
+        if not name:
+            # anonymous struct/union member: same object (members of the anonymous aggregate are keyed by their own names)
+            if n.get("isArrow"):
+                return [(s, ("elem", p, tm.num(0, "I"))) for s, p in self.ev(base, st)]
+            return self.lv(base, st)
         if n.get("isArrow"):
             for s, p in self.ev(base, st):
                 out.append((s, ("field", name, p)))
@@ -1040,8 +1070,16 @@ class Exec(object):
 
     def st_IfStmt(self, n, st):
         inner = [c for c in n["inner"]]
-        if n.get("hasInit") or n.get("hasVar"):
-            raise Undecided("if with init/condition variable")
+        if n.get("hasInit"):
+            raise Undecided("if with init statement")
+        if n.get("hasVar"):
+            # if (T v = e) S : declare v, the condition is v's value
+            decl = inner[0]
+            states = self.exec(decl, [st])
+            out = []
+            for s in states:
+                out.extend(self.st_IfStmt({"inner": inner[1:], "kind": "IfStmt"}, s))
+            return out
         cond, then = inner[0], inner[1]
         els = inner[2] if len(inner) > 2 else None
         out = []
@@ -1341,6 +1379,8 @@ class Exec(object):
                 for key in havoc_keys:
                     if key[0] == "f":
                         s.heap[key] = tm.sym("Hiter.%s:%s" % (key[1], key[2]), ("A", "P", key[2]))
+                    elif key[0] == "m2":
+                        s.heap[key] = tm.sym("Hiter.%s:%s[%s]" % (key[1], key[2], key[3]), ("A", "P", key[3], key[2]))
                     else:
                         s.heap[key] = tm.sym("Hiter.mem:%s" % (key[1],), ("A", "P", "I", key[1]))
                 for did, (name, q) in ids.items():
